@@ -1518,25 +1518,28 @@ func (styleFor StyleFor) SetPageComputedStylesT(pageType utils.PageElement, html
 
 // Return tokens with resolved CSS variables.
 func resolveVar(computed map[string]pr.RawTokens, token Token) []Token {
+	return resolveVarIn(computed, token, nil)
+}
+
+// [inProgress] are the variables being substituted : a variable referring to itself,
+// directly or through other variables, has no value (its fallback, if any, is used instead)
+func resolveVarIn(computed map[string]pr.RawTokens, token Token, inProgress []string) []Token {
 	if !validation.HasVar(token) {
 		return nil
 	}
 
 	fn := token.(pa.FunctionBlock)
 	if utils.AsciiLower(fn.Name) != "var" {
+		// the var() may be nested at any depth in the arguments
 		arguments := []Token{}
 		for _, argument := range fn.Arguments {
-			if fna, isFunction := argument.(pa.FunctionBlock); isFunction && utils.AsciiLower(fna.Name) == "var" {
-				arguments = append(arguments, resolveVar(computed, argument)...)
+			if resolved := resolveVarIn(computed, argument, inProgress); resolved != nil {
+				arguments = append(arguments, resolved...)
 			} else {
 				arguments = append(arguments, argument)
 			}
 		}
-		token = pa.NewFunctionBlock(token.Pos(), fn.Name, arguments)
-		if resolved := resolveVar(computed, token); len(resolved) != 0 {
-			return resolved
-		}
-		return []Token{token}
+		return []Token{pa.NewFunctionBlock(token.Pos(), fn.Name, arguments)}
 	}
 
 	_, args := pa.ParseFunction(token)
@@ -1544,13 +1547,22 @@ func resolveVar(computed map[string]pr.RawTokens, token Token) []Token {
 	varNameToken, default_ := args[0], args[1:]
 	variableName := varNameToken.(pa.Ident).Value
 
+	isCyclic := false
+	for _, name := range inProgress {
+		if name == variableName {
+			isCyclic = true
+			break
+		}
+	}
+
 	source := default_
-	if l := computed[variableName]; len(l) != 0 {
+	if l := computed[variableName]; len(l) != 0 && !isCyclic {
 		source = l
+		inProgress = append(inProgress[:len(inProgress):len(inProgress)], variableName)
 	}
 	computedValue := []Token{}
 	for _, value := range source {
-		if resolved := resolveVar(computed, value); resolved != nil {
+		if resolved := resolveVarIn(computed, value, inProgress); resolved != nil {
 			computedValue = append(computedValue, resolved...)
 		} else {
 			computedValue = append(computedValue, value)
